@@ -46,6 +46,7 @@ func measured(f func() error) (class string, alloc uint64, detail string) {
 }
 
 var decAlloc = newAllocator()
+var fxBigBuf = make([]byte, 512*1024)
 
 func frameCalls(tr *tracer, in []byte, desc string) {
 	hi, lo := 0, 0
@@ -53,7 +54,7 @@ func frameCalls(tr *tracer, in []byte, desc string) {
 		v := binary.BigEndian.Uint32(in)
 		hi, lo = int(v>>16), int(v&0xffff)
 	}
-	for _, entry := range []string{"recvPacket", "recvPacket+alloc", "fx.readPacket"} {
+	for _, entry := range []string{"recvPacket", "recvPacket+alloc", "fx.readPacket", "fx.readPacket+bigbuf"} {
 		cr := &countingReader{r: bytes.NewReader(in)}
 		outlen := -1
 		var f func() error
@@ -76,6 +77,16 @@ func frameCalls(tr *tracer, in []byte, desc string) {
 					outlen = 1 + len(payload)
 				}
 				decAlloc.ReleasePages(1)
+				return err
+			}
+		case "fx.readPacket+bigbuf":
+			// a caller-supplied scratch buffer that is larger than the limit: the limit, not the buffer, decides
+			f = func() error {
+				var rp sshfx.RawPacket
+				err := rp.ReadFrom(cr, fxBigBuf, maxMsgLength)
+				if err == nil {
+					outlen = 1 + 4 + rp.Data.Len()
+				}
 				return err
 			}
 		default:
@@ -104,7 +115,7 @@ func bodyCalls(tr *tracer, frame []byte, desc string) {
 		class, alloc, detail := measured(f)
 		e := kv{"entry": entry, "inlen": inlen, "class": class, "alloc": int(min(alloc, 1<<30)), "detail": detail, "desc": desc, "typ": int(typ), "strict": false}
 		// the two complete request decoders: TLC decides with Wire.tla whether the mutated frame is still well-formed
-		if (entry == "makePacket" && typ != tMkdir || entry == "fx.RequestPacket") && desc != "valid" && len(frame) <= 120 && !strings.HasPrefix(desc, "type=") {
+		if (entry == "makePacket" || entry == "fx.RequestPacket") && desc != "valid" && len(frame) <= 120 && !strings.HasPrefix(desc, "type=") {
 			e["strict"] = true
 			e["bytes"] = ints(frame)
 		}
